@@ -9,8 +9,10 @@ Inductive elem :=
 | EProse (l : text)
 | EHeading (level : nat) (t : text)
 | EBlank
-| EForeign (n : nat) (lang : text) (body : list text)
-| EScrut (n : nat) (cfg : option text) (comments : list text) (cmd : option (text * list text * list bline)).
+| EForeign (n : nat) (lang : text) (body : list text) (tail : text)
+| EScrut (n : nat) (cfg : option text) (comments : list text) (cmd : option (text * list text * list bline)) (tail : text).
+(* [tail]: what follows the N backticks on the closing line -- more backticks (a longer fence), blanks, any text:
+   a block ends at the first line that STARTS WITH its N backticks *)
 
 Definition fence (n : nat) : text := repeat BT n.
 Definition hashes (k : nat) : text := repeat 35 k.
@@ -21,15 +23,15 @@ Definition render_elem (e : elem) : list text :=
   | EProse l => [l]
   | EHeading k t => [hashes k ++ [32] ++ t]
   | EBlank => [[]]
-  | EForeign n lang body => [fence n ++ lang] ++ body ++ [fence n]
-  | EScrut n cfg comments cmd =>
+  | EForeign n lang body tail => [fence n ++ lang] ++ body ++ [fence n ++ tail]
+  | EScrut n cfg comments cmd tail =>
     [fence n ++ SCRUT ++ match cfg with Some c => [32; 123] ++ c ++ [125] | None => [] end]
     ++ comments
     ++ match cmd with
        | Some (c, conts, body) => [P_DOLLAR ++ c] ++ map (fun x => P_GT ++ x) conts ++ map render_body body
        | None => []
        end
-    ++ [fence n]
+    ++ [fence n ++ tail]
   end.
 Definition render_md (d : list elem) : list text := flat_map render_elem d.
 
@@ -48,12 +50,12 @@ Fixpoint md_tests_from (d : list elem) (line : nat) (st : tstate) : list mtest :
   | e :: r =>
     let next := (line + length (render_elem e))%nat in
     match e with
-    | EFront _ | EForeign _ _ _ => md_tests_from r next st
+    | EFront _ | EForeign _ _ _ _ => md_tests_from r next st
     | EProse l => md_tests_from r next (title_line st l)
     | EHeading k t => md_tests_from r next (title_line st (hashes k ++ [32] ++ t))
     | EBlank => md_tests_from r next (title_line st [])
-    | EScrut n cfg comments None => md_tests_from r next (mkTS [] (ts_title st))
-    | EScrut n cfg comments (Some (c, conts, body)) =>
+    | EScrut n cfg comments None _ => md_tests_from r next (mkTS [] (ts_title st))
+    | EScrut n cfg comments (Some (c, conts, body)) _ =>
       mkMT (mkPT (match ts_title st with Some t => t | None => [] end) (c :: conts) (exps_of body) (code_of body)
                  (S (line + 1 + length comments)))
            cfg
@@ -84,9 +86,9 @@ Definition elem_ok (pe_ok : text -> bool) (front_ok : list text -> bool) (cfg_ok
   | EProse l => not_fence_start l && no_nl l && negb (first && list_eqb l DASHES)
   | EHeading k t => Nat.ltb 0 k && no_nl t && match t with [] => false | _ => true end
   | EBlank => true
-  | EForeign n lang body => Nat.leb 3 n && lang_ok lang && forallb (fun l => negb (closes n l) && no_nl l) body
-  | EScrut n cfg comments cmd =>
-    Nat.leb 3 n
+  | EForeign n lang body tail => Nat.leb 3 n && lang_ok lang && forallb (fun l => negb (closes n l) && no_nl l) body && no_nl tail
+  | EScrut n cfg comments cmd tail =>
+    Nat.leb 3 n && no_nl tail
     && match cfg with Some c => cfg_text_ok cfg_ok c | None => true end
     && forallb (fun l => is_comment l && no_nl l) comments
     && match cmd with
